@@ -1,6 +1,7 @@
 package main
 
 import (
+	"io"
 	"bytes"
 	"context"
 	"encoding/json"
@@ -39,6 +40,9 @@ type c17Case struct {
 	Tx     string     `json:"read_mode"`
 	NF     int        `json:"faulty_shards"`
 	Group  string     `json:"group"`
+	// EarlyClose: before the read that is judged, a consumer reads 10 bytes of the faulty part and
+	// closes the stream (ranged GET, aborted download) - a healing read that is abandoned half-way
+	EarlyClose bool `json:"early_close_first,omitempty"`
 }
 
 const ecStripe = 1024
@@ -301,7 +305,20 @@ func c17Classify(cs c17Case, got, want []byte, err error) string {
 		return scope + "/foreign-shard-accepted"
 	}
 	if err == nil && len(got) < len(want) && bytes.Equal(got, want[:len(got)]) {
-		return scope + "/all-readable-shards-end-early-silent-prefix"
+		// the recorded defect: every shard that is still readable simply ENDS (missing, truncated,
+		// unusable shard header). Shards that deliver a damaged frame are something else.
+		endsEarly := true
+		for _, f := range cs.Faults {
+			kc := kindClass(f.Kind)
+			if kc != "missing" && !strings.HasPrefix(kc, "trunc:") && !strings.HasPrefix(kc, "flip:shard-") &&
+				kc != "reorder:drop-first-frame" && kc != "reorder:duplicate-first-frame" { // length-changing: the shard is refused when it is opened
+				endsEarly = false
+			}
+		}
+		if endsEarly {
+			return scope + "/all-readable-shards-end-early-silent-prefix"
+		}
+		return scope + "/damaged-frames-read-as-clean-end-silent-prefix"
 	}
 	var ks []string
 	for _, f := range cs.Faults {
@@ -341,6 +358,16 @@ func (c *c17ctx) runCase(cs c17Case) {
 	}
 	c.rec.Seen(fmt.Sprintf("subsets_ec%d%d", c.d, c.p), strings.Join(shards, ","))
 	c.rec.Eval(fmt.Sprintf("ec%d%d|n=%d|%v|%s", c.d, c.p, c.size, cs.Faults, cs.Tx))
+	if cs.EarlyClose {
+		c.rec.Count("abandoned_reads_before_the_judged_read", 1)
+		func() {
+			defer func() { _ = recover() }()
+			if rc, e := c.ps.GetPart(bg, nil, c.idA); e == nil {
+				_, _ = io.ReadFull(rc, make([]byte, 10))
+				_ = rc.Close()
+			}
+		}()
+	}
 	got, err := c.read(cs.Tx)
 	w := map[string]any{"case": cs, "got": vkit.Brief(got), "want": vkit.Brief(c.cur), "error": errStr(err)}
 	exact := err == nil && bytes.Equal(got, c.cur)
@@ -499,6 +526,15 @@ func c17Cases(sp c17Spec, tier string, seed uint64, nFrames int) []c17Case {
 	if tier == "thorough" {
 		nRandom = 120
 	}
+	// missing shards (<= parity) whose first, healing read is abandoned after 10 bytes
+	for _, sub := range subsetsUpTo(total, sp.P) {
+		var fs []c17Fault
+		for _, s := range sub {
+			fs = append(fs, c17Fault{s, "missing"})
+		}
+		add("missing-then-abandoned-read", fs)
+		cases[len(cases)-1].EarlyClose = true
+	}
 	for _, sub := range subsetsUpTo(total, sp.P+1) {
 		if len(sub) == 1 {
 			// single-shard subsets additionally get the 16 MiB length fields
@@ -536,6 +572,29 @@ func c17Cases(sp c17Spec, tier string, seed uint64, nFrames int) []c17Case {
 				fs = append(fs, c17Fault{s, kinds[rg.Intn(len(kinds))]})
 			}
 			add("mixture", fs)
+		}
+	}
+	// every shard damaged in the SAME stripe in a way that is not an end of file: no valid
+	// frame is left in that stripe, the read has to fail (it must not end cleanly there)
+	if nFrames > 0 {
+		fr := map[int]bool{0: true, nFrames - 1: true, nFrames / 2: true}
+		var fl []int
+		for f := range fr {
+			fl = append(fl, f)
+		}
+		sort.Ints(fl)
+		for _, f := range fl {
+			for _, v := range []string{"flip:payload:mid", "flip:frame-hash:first", "trunc:mid-payload", "flip:frame-payloadlen:lo", "flip:frame-stripeindex:lo"} {
+				var fs []c17Fault
+				for s := 0; s < total; s++ {
+					k := fmt.Sprintf("%s@%d", v, f)
+					if v == "trunc:mid-payload" && s == 0 {
+						k = fmt.Sprintf("flip:payload:first@%d", f) // at least one shard goes on after the damaged frame
+					}
+					fs = append(fs, c17Fault{s, k})
+				}
+				add("all-shards-same-stripe", fs)
+			}
 		}
 	}
 	if tier == "thorough" && sp.Size == sp.D*ecStripe+1 { // 256 MiB payloadLen, one shard at a time (one size per configuration: slow)
@@ -716,7 +775,7 @@ func runC17(tier, replay string) {
 	}
 	wantSubsets := map[string]int{"subsets_ec11": 3, "subsets_ec21": 6, "subsets_ec22": 14, "subsets_ec32": 25}
 	for k, n := range wantSubsets {
-		if r.SeenCount(k) != n {
+		if r.SeenCount(k) < n { // + the all-shards subset of the same-stripe group where it is larger than parity+1
 			r.Inconclusive(fmt.Sprintf("%s: %d of %d shard subsets enumerated", k, r.SeenCount(k), n))
 		}
 	}
